@@ -33,7 +33,8 @@ def _const_key(node: ast.AST | None) -> str | None:
     return node.value if isinstance(node, ast.Constant) and isinstance(node.value, str) else None
 
 
-def writer_keys(prog: Program, cls: ClassInfo, method: str = "as_dict", _after: ClassInfo | None = None) -> dict[str, WKey]:
+def writer_keys(prog: Program, cls: ClassInfo, method: str = "as_dict", _after: ClassInfo | None = None, *, full: bool | None = None) -> dict[str, WKey]:
+    """`full`: when given, `always` is computed under the assumption that the `full` flag has that value."""
     ms = prog.lookup_method(cls, method, after=_after)
     if not ms:
         raise AnalysisError(f"{cls.qualname} has no {method}")
@@ -62,7 +63,7 @@ def writer_keys(prog: Program, cls: ClassInfo, method: str = "as_dict", _after: 
             elif isinstance(tgt, ast.Name) and isinstance(s.value, ast.Call) and isinstance(s.value.func, ast.Attribute) and s.value.func.attr == method \
                     and isinstance(s.value.func.value, ast.Call) and dotted(s.value.func.value.func) == "super":
                 result_var = result_var or tgt.id
-                inherited = writer_keys(prog, cls, method, _after=fn.cls)
+                inherited = writer_keys(prog, cls, method, _after=fn.cls, full=full)
                 # does the super call forward `full`?  (**kwargs carries it)
                 for k, wk in inherited.items():
                     out[k] = wk
@@ -81,7 +82,16 @@ def writer_keys(prog: Program, cls: ClassInfo, method: str = "as_dict", _after: 
     rets = [n for n in cfg.live_nodes() if n.kind == "return"]
     for k, lst in by_key.items():
         nodes = {n for n, _v in lst}
-        always = not (cfg.reach(cfg.entry, avoid=lambda x, nodes=nodes: x in nodes and x.kind != "return", normal_only=True) & {r for r in rets if r not in nodes})
+        def dead(a, _b, label):
+            if full is None or not full_param or a.kind != "test" or a.expr is None or label not in "TF":
+                return False
+            from sa.reach import eval3
+
+            v = eval3(a.expr, {full_param: full})
+            return v is not None and v != (label == "T")
+
+        always = not (cfg.reach(cfg.entry, avoid=lambda x, nodes=nodes: x in nodes and x.kind != "return", avoid_edge=dead, normal_only=True)
+                      & {r for r in rets if r not in nodes})
         full_only = bool(full_param) and all(cfg.dominated_by_fact(n, lambda a, t: t and unparse(a) == full_param) for n in nodes)
         conds: list[str] = []
         for n in nodes:
